@@ -110,7 +110,7 @@ func (fx *Fx) hardwired(st *State, fn *types.Func, call *ast.CallExpr, recv *Val
 				} else {
 					f := fx.eval(t, call.Args[0])
 					c.declareFun("fn_code", []string{"Int"}, "Int")
-					t.logEvent(evTerm("Call", "(fn_code "+f.T+")", "", "", ""))
+					t.logEvent(evTerm("FnCall", "(fn_code "+f.T+")", "", "", ""))
 					ms := newModSet()
 					ms.emits, ms.allocs = true, true
 					fx.havocMods(t, ms)
